@@ -35,6 +35,7 @@ import (
 	"context"
 	"encoding/binary"
 	"fmt"
+	"google.golang.org/protobuf/proto"
 	"log"
 	"math"
 	"math/rand"
@@ -201,10 +202,12 @@ func (s *server) CreateTable(ctx context.Context, req *btapb.CreateTableRequest)
 
 	s.mu.Unlock()
 
+	// (a copy: the stored definition is changed by ModifyColumnFamilies while this response is encoded)
+	def := proto.Clone(req.GetTable()).(*btapb.Table)
 	ct := &btapb.Table{
 		Name:           tbl,
-		ColumnFamilies: req.GetTable().GetColumnFamilies(),
-		Granularity:    req.GetTable().GetGranularity(),
+		ColumnFamilies: def.GetColumnFamilies(),
+		Granularity:    def.GetGranularity(),
 	}
 	if ct.Granularity == 0 {
 		ct.Granularity = btapb.Table_MILLIS
@@ -235,9 +238,12 @@ func (s *server) GetTable(ctx context.Context, req *btapb.GetTableRequest) (*bta
 		return nil, status.Errorf(codes.NotFound, "table %q not found", req.Name)
 	}
 
-	s.mu.Lock()
-	defer s.mu.Unlock()
-	return tbl.def, nil
+	// The response is encoded after this handler has returned: hand out a copy, not the
+	// definition that ModifyColumnFamilies keeps changing (a concurrent map read and
+	// write is fatal to the whole process).
+	tbl.mu.RLock()
+	defer tbl.mu.RUnlock()
+	return proto.Clone(tbl.def).(*btapb.Table), nil
 }
 
 func (s *server) DeleteTable(ctx context.Context, req *btapb.DeleteTableRequest) (*emptypb.Empty, error) {
@@ -348,7 +354,7 @@ func (s *server) ModifyColumnFamilies(ctx context.Context, req *btapb.ModifyColu
 			tbl.rows.Delete(k)
 		}
 	}
-	return tbl.def, nil
+	return proto.Clone(tbl.def).(*btapb.Table), nil
 }
 
 func (s *server) DropRowRange(ctx context.Context, req *btapb.DropRowRangeRequest) (*emptypb.Empty, error) {
